@@ -382,6 +382,10 @@ fn benign_specs() -> Vec<BuildSpec> {
             .collect();
         s.files = vec![f, d, deep, ln, dangling, top, tmp, toml, bak];
         s.files.extend(hidden);
+        // paths that are tails / prefixes of one another, the relative './' spelling, names that differ in case
+        for p in ["/opt/app/share/doc/README", "/share/doc/README", "/README", "./.rel/.hidden/x", "/rel/hidden/x", "/q/File", "/q/file", "/lib/x", "/lib-1.0/y", "/lib.d/z"] {
+            s.files.push(FileSpec::new(p, Content::Bytes(format!("content of {}", p).into_bytes())));
+        }
         v.push(s);
     }
     v
